@@ -556,6 +556,12 @@ O("C01.fill_yly_ywd", ["C01"], "h_C17s.c", "h_C01_fill_yly_ywd",
 O("C01.fill_yly_ywd.outside", ["C01"], "h_C17s.c", "h_C01_fill_yly_ywd",
   "fill_yly_ywd when the selected day of ISO week W lies in a neighbouring calendar year (region of known finding KF-C01-ywd-outside-year)",
   ["fill_yly_ywd", "ywd_to_md"], defines=["-DREGION_YWD_OUTSIDE_YEAR"], finding="KF-C01-ywd-outside-year", **EE)
+O("C01.fill_mly_ymd", ["C01", "C09"], "h_C17s.c", "h_C01_fill_mly_ymd",
+  "fill_mly_ymd (BYMONTHDAY=N with optional plain BYDAY weekdays, Gregorian scale): for every year, month, N in +-1..31 and weekday mask exactly the N-th (N-th last) day of the month is selected when the month has it and its weekday is allowed, nothing otherwise - BYMONTHDAY beyond the month length included",
+  ["fill_mly_ymd"], replace_status={"echs_scale_ndim": "macro with the spec value; discharged for the Gregorian scale by C15.dispatch/C15.greg", "echs_scale_wday": "likewise"}, **EE)
+O("C01.fill_mly_ymcw", ["C01"], "h_C17s.c", "h_C01_fill_mly_ymcw",
+  "fill_mly_ymcw (BYDAY=nXX in a month): for every year, month, weekday and n in +-1..5 exactly the n-th (n-th last) such weekday of the month is selected, nothing when the month has only four",
+  ["fill_mly_ymcw", "ymcw_get_dom", "unpack_cd"], drop_checks=["--undefined-shift-check"], native_cflags=["-fno-sanitize=shift"], **EE)
 O("C09.make_enum", ["C09"], "h_C09e.c", "h_C09_make_enum",
   "make_enum (the time-of-day arrays every filler indexes): for every BYHOUR within 0..23, BYMINUTE within 0..59, BYSECOND within 0..60 and every DTSTART time it writes inside its three arrays, yields 1..24 / 1..60 / 1..61 entries, each a member of its BYxxx set (DTSTART's value when the set is empty), strictly increasing; the loops terminate",
   ["make_enum"], dfcc=True, loop_contracts=True, replace=["bui31_next", "bui63_next"],
